@@ -88,6 +88,20 @@ def enumerate_cases(tier):
                        "cache_size": cs, "dt": None, "tol": 0.0, "halfway": False, "user_W": False, "user_H": False,
                        "grid": 100}
                 yield {"kind": "history", "cfg": cfg, "ops": ops, "perm": rnd.randrange(2 ** 31)}
+    # the same intervals asked with their times in every representation (float, 0-dim float64 / float32 tensor, numpy scalar),
+    # and with t0 / t1 handed over as tensors the caller changes later - for every Levy mode and dtype
+    for levy in ("none", "space-time", "davie", "foster"):
+        for dtype in ("float64", "float32"):
+            for t0, span in ((0.0, 1.0), (-0.5, 2.0)):
+                idx += 1
+                rnd = random.Random(seed * 3001 + idx)
+                ivs = [(rnd.randrange(0, 40), rnd.randrange(60, 101)) for _ in range(3)] + [(rnd.randrange(30, 50), rnd.randrange(50, 60))]
+                ops = [["q", a_, b_] for _ in range(4) for (a_, b_) in ivs] + [["q", 0, 100]]
+                cfg = {"wrapper": "interval", "t0": t0, "t1": t0 + span, "shape": [4, 3] if levy in ("davie", "foster") else [16],
+                       "levy": levy, "entropy": rnd.randrange(2 ** 31), "dtype": dtype, "cache_size": rnd.choice([45, 2, None]),
+                       "dt": None, "tol": 0.0, "halfway": False, "user_W": False, "user_H": False, "grid": 100,
+                       "time_forms": True, "t_tensor_mutated": idx % 2 == 0}
+                yield {"kind": "history", "cfg": cfg, "ops": ops, "perm": rnd.randrange(2 ** 31)}
 
 
 def _eq(x, y):
@@ -122,6 +136,8 @@ def run_case(case):
             bm_t, _, _ = history.build(cfg, torchsde, torch)
             bm_t(cfg["t0"], cfg["t1"])
             twins.append(bm_t)
+        if idx == len(queries) // 3:
+            meta["mutate_again"]()      # the tensors t0 / t1 were passed in (if they were tensors) are the caller's to change
         got = bm(a, b)
         td = getattr(interval, "_tree_dt", None)
         if td != tree_dt0:
@@ -205,6 +221,10 @@ def run_case(case):
         labels.append("return_flag_subsets_checked")
     if twins:
         labels.append("twin_object_built_mid_history")
+    if cfg.get("t_tensor_mutated"):
+        labels.append("t0_t1_given_as_tensors_changed_by_caller_later")
+    if cfg.get("time_forms") and cfg["tol"] == 0:
+        labels.append("query_times_in_rotating_forms(float/tensor64/numpy/tensor32)")
     return Result(nontrivial=(far_repeat or rebuild_repeat) and len(order) >= 3, labels=labels, checks=checks,
                   metrics={"queries_per_history": n0, "repeats_in_history": repeats})
 
